@@ -105,7 +105,7 @@ func genState(t *rapid.T) State {
 			revs = append(revs, v)
 		}
 	}
-	s := State{Versions: vs, Ck: ck, Revs: revs, Order: rapid.IntRange(0, 2).Draw(t, "order")}
+	s := State{Versions: vs, Ck: ck, Revs: revs, Order: rapid.IntRange(0, 2).Draw(t, "order"), CRLF: rapid.IntRange(0, 3).Draw(t, "crlf") == 0}
 	if len(revs) > 0 {
 		s.Partial = rapid.Bool().Draw(t, "partial")
 		s.Resolved = s.Partial && rapid.IntRange(0, 2).Draw(t, "resolved") == 0
@@ -161,6 +161,18 @@ func TestCheck(t *testing.T) {
 		nstates++
 		if ok = ev.Each(col, "api-exhaustive", Case{State: s, Op: "pending"}, check, known); !ok {
 			return false
+		}
+		// the same directory written with Windows line endings
+		hasCk := false
+		for _, c := range s.Ck {
+			hasCk = hasCk || c
+		}
+		if hasCk {
+			w := s
+			w.CRLF = true
+			if ok = ev.Each(col, "api-exhaustive-crlf", Case{State: w, Op: "pending"}, check, known); !ok {
+				return false
+			}
 		}
 		for n := 0; n <= 3; n++ {
 			if ok = ev.Each(col, "api-exhaustive", Case{State: s, Op: "execN", N: n}, check, known); !ok {
